@@ -36,6 +36,8 @@ from vsc.model.expr_fieldref_model import ExprFieldRefModel
 from vsc.model.expr_literal_model import ExprLiteralModel
 from vsc.model.expr_model import ExprModel
 from vsc.model.field_model import FieldModel
+from vsc.model.field_array_model import FieldArrayModel
+from vsc.model.field_composite_model import FieldCompositeModel
 from vsc.model.field_scalar_model import FieldScalarModel
 from vsc.model.model_visitor import ModelVisitor
 from vsc.model.rand_if import RandIF
@@ -550,6 +552,7 @@ class Randomizer(RandIF):
             debug=0,
             lint=0,
             solve_fail_debug=0):
+        failed = True
         try:
             Randomizer._do_randomize(
                 randstate,
@@ -559,11 +562,38 @@ class Randomizer(RandIF):
                 debug=debug,
                 lint=lint,
                 solve_fail_debug=solve_fail_debug)
+            failed = False
         finally:
-            # Whatever the outcome, no field remains marked as
-            # in-use random once the call is over
+            # Whatever the outcome: temporary constraint replacements are
+            # rolled back, no field keeps a solver handle, and no field 
+            # remains marked as in-use random once the call is over
+            visited = set()
             for f in field_model_l:
+                ConstraintOverrideRollbackVisitor.rollback(f)
+                Randomizer._release_solver_handles(f, visited, failed)
                 f.set_used_rand(False, 0)
+
+    @staticmethod
+    def _release_solver_handles(fm, visited, failed=False):
+        """Drops the solver nodes cached on a field tree (which may be cyclic).
+        After a failed call, also drops the elements that were added to 
+        random-size lists to make room for their largest size"""
+        if id(fm) in visited:
+            return
+        visited.add(id(fm))
+        if isinstance(fm, FieldCompositeModel):
+            for f in fm.field_l:
+                Randomizer._release_solver_handles(f, visited, failed)
+            if isinstance(fm, FieldArrayModel):
+                fm.size.dispose()
+                fm.sum_expr_btor = None
+                fm.product_expr_btor = None
+                if failed and fm.is_rand_sz and fm.is_scalar and fm.presolve_len is not None:
+                    if len(fm.field_l) > fm.presolve_len:
+                        del fm.field_l[fm.presolve_len:]
+                    fm._set_size(len(fm.field_l))
+        elif hasattr(fm, "dispose"):
+            fm.dispose()
 
     @staticmethod
     def _do_randomize(
